@@ -1,2 +1,3 @@
--- Root of the `PymotoVerif` library: models (Core, LA), helper lemmas, property theorems.
-import PymotoVerif.Core.Base
+-- Root of the `PymotoVerif` library: models (Core, LA), helper lemmas, property theorems, driver handlers.
+import PymotoVerif.Drv.All
+import PymotoVerif.Props.C13
